@@ -924,6 +924,10 @@ func c08(w *core.World, r *core.Report) {
 	ruleScanAlwaysTruncates(w, r)
 	r.Rule("R08.10", "a snapshot is 'still being written' (not verified) only when it exists under its temporary name", 1)
 	ruleWritingOnlyForTmpName(w, r)
+	r.Rule("R08.11", "the snapshot verification answers 'not corrupted' only on a path that established computed checksum == stored checksum (or the file is too short to hold a body)", 1)
+	ruleSnapshotChecksumSpec(w, r)
+	r.Rule("R08.12", "the verification switch travels through the store unweakened: every parameter or field that carries it from GetReader to the opens is set to the carrier of the setting function itself, and is set before the object is used", 6)
+	ruleSwitchUnweakened(w, r)
 }
 
 func ruleRdbCommit(w *core.World, r *core.Report) {
